@@ -436,6 +436,28 @@ Proof.
   split; [reflexivity|]. split; reflexivity.
 Qed.
 
+(* ------------------------------------------------------------------ identifiers belong to ONE preparation *)
+(* Two formulas sharing the draw variable xi: MonteCarlo(aa + xi) (xi is column 1) and MonteCarlo(xi * xi) (xi is column 0).
+   Each preparation read with its OWN table gives xi its own series (100); the numbering of the second one applied to
+   the table of the first one reads the series of aa (1), and conversely falls outside the table: the identifiers stored
+   in a shared bioDraws object must be those of the preparation whose table the engine holds (stream history). *)
+Theorem stale_identifiers_refuted :
+  exists (f1 f2 : expr) (user : gdict Z unit) t1 tb1 t2 tb2,
+    prepare_draws Z unit [] user [f1] [] 1 1 tt = Some (t1, Ok (tb1, tt)) /\
+    prepare_draws Z unit [] user [f2] [] 1 1 tt = Some (t2, Ok (tb2, tt)) /\
+    draw_id t1 "xi" = Some 1%Z /\ draw_id t2 "xi" = Some 0%Z /\
+    engine_draw Z t1 tb1 0 0 "xi" = Some 100%Z /\
+    engine_draw Z t2 tb2 0 0 "xi" = Some 100%Z /\
+    engine_draw Z t2 tb1 0 0 "xi" = Some 1%Z /\
+    engine_draw Z t1 tb2 0 0 "xi" = None.
+Proof.
+  exists (EUn MonteCarlo (EBin Plus (EDraws "aa" "GA") (EDraws "xi" "GX"))),
+         (EUn MonteCarlo (EBin Times (EDraws "xi" "GX") (EDraws "xi" "GX"))),
+         [("GA"%string, cst_gen 1); ("GX"%string, cst_gen 100)].
+  do 4 eexists. split; [vm_compute; reflexivity|]. split; [vm_compute; reflexivity|].
+  repeat split.
+Qed.
+
 (* ================================================================== 4. Monte-Carlo = mean over the draws *)
 From Coq Require Import Reals Lra.
 From Coquelicot Require Import Rbar Hierarchy RInt_gen Derive.
